@@ -1,6 +1,7 @@
 package main
 
 import (
+	"fmt"
 	"go/ast"
 	"go/token"
 	"go/types"
@@ -284,6 +285,41 @@ func ruleItemDistanceExact(c *Ctx) {
 					if x, ok := ast.Unparen(se.X).(*ast.Ident); ok && info.ObjectOf(x) == objO {
 						rectObj = info.ObjectOf(id)
 					}
+				}
+			}
+			// the whole corner at once: min = [2]float64{r.Min.X, r.Min.Y}
+			if cl, ok := ast.Unparen(as.Rhs[0]).(*ast.CompositeLit); ok && len(cl.Elts) == 2 && (info.ObjectOf(id) == minO || info.ObjectOf(id) == maxO) {
+				base := "min"
+				if info.ObjectOf(id) == maxO {
+					base = "max"
+				}
+				for i, el := range cl.Elts {
+					if kv, isKV := el.(*ast.KeyValueExpr); isKV {
+						if tv, ok := info.Types[kv.Key]; ok && tv.Value != nil {
+							if tv.Value.String() == "1" {
+								i = 1
+							} else {
+								i = 0
+							}
+						}
+						el = kv.Value
+					}
+					if s2, ok := ast.Unparen(el).(*ast.SelectorExpr); ok {
+						if s1, ok := ast.Unparen(s2.X).(*ast.SelectorExpr); ok {
+							if r, ok := ast.Unparen(s1.X).(*ast.Ident); ok && rectObj != nil && info.ObjectOf(r) == rectObj {
+								got[fmt.Sprintf("%s[%d]", base, i)] = s1.Sel.Name + "." + s2.Sel.Name
+							}
+						}
+					}
+				}
+				dom := false
+				for _, f := range fg.DominatingFacts(l) {
+					if fid, ok := ast.Unparen(f.E).(*ast.Ident); ok && info.ObjectOf(fid) == itemO && !f.Neg {
+						dom = true
+					}
+				}
+				if !dom {
+					underItem = false
 				}
 			}
 			continue
